@@ -13,15 +13,33 @@
   yields closed rings, counter-clockwise exteriors and clockwise holes (`polygonFromShape_*`); hence
   the pointwise statement of the property (`booleanOp_evenOdd`, `booleanOp_pointwise_partial`), the
   indicator identities behind the three area identities, `unary_union` and `clip`.
+
+  C04X additions: the Jordan-type assumption S2 is *proved* from `polyValid` at every point off the
+  rings (`evenOdd_eq_inside_valid`) and member disjointness from `multiPolyValid` (`members_apart`),
+  hence the full statements `booleanOp_pointwise` (valid MultiPolygon operands),
+  `booleanOp_pointwise_polygon` (valid Polygon operands) and `unaryUnion_region_valid`; the
+  behaviour of `unary_union` on *every* closed-ring collection, consistently wound or not
+  (`unaryUnion_fill_region`, witness `unaryUnion_inconsistent_witness`); the area identities for every
+  finitely additive measure on regions and for the results of the four operations
+  (`area_identities`, `area_eq_expectedArea`, `booleanOp_area_identities`), the oracle's fan carries
+  the exact area (`oracle_fan_area`), `clip` length conservation (`clip_length_conserved`); the glue
+  round trip (`glue_roundTrip`, `glue_roundTrip_valid`, `glue_roundTrip_region`).
 -/
 import GeoModel.BoolGlue
 import GeoModel.BoolSpec
 import GeoProofs.Lemmas.C04Wind
 import GeoProofs.Lemmas.C04Locate
+import GeoProofs.Lemmas.C04XRound
+import GeoProofs.Lemmas.C04XMeasure
+import GeoProofs.Lemmas.C04XLayer
+import GeoProofs.Lemmas.C04XGeneric
+import GeoProofs.Lemmas.C04XMulti
+import GeoProofs.Lemmas.C04XMembers
 import GeoProofs.Props.C18
+import GeoProofs.Props.C05
 
 namespace Geo.Proofs.C04
-open Geo Geo.BoolGlue Geo.BoolSpec Geo.Proofs.C04L
+open Geo Geo.BoolGlue Geo.BoolSpec Geo.Proofs.C04L Geo.Proofs.C04X
 
 /-! ### Rule table -/
 
@@ -263,9 +281,11 @@ theorem booleanOp_evenOdd {E : Engine} {far : Pt → List Path → Prop} (hE : E
 /-- [Tp] **pointwise statement of the property**: `inside (A op B) ⇔ op (inside A, inside B)`.
 Extra hypotheses `hSA`, `hSB` = spec adequacy S2 (DESIGN §6.6): for a *valid* (multi)polygon the
 even-odd parity over all its rings is its interior (Jordan curve theorem + holes inside the shell,
-members with disjoint interiors); not formalised, validated numerically by the membership clause of
-the oracle on every run.
-Full statement: the same without `hSA`/`hSB` but with `validGeom (.multiPolygon a)`, `… b`. -/
+members with disjoint interiors). C04X: `hSA`/`hSB` are now *theorems* for every valid operand:
+`evenOdd_eq_inside_valid` (one polygon) and `members_apart` (members of a valid MultiPolygon).
+Full statement: the same without `hSA`/`hSB` but with `validGeom (.multiPolygon a)`, `… b` —
+**proved below as `booleanOp_pointwise`** (and `booleanOp_pointwise_polygon` for Polygon operands).
+This form stays useful for operands that are not valid but for which `hSA`/`hSB` can be checked. -/
 theorem booleanOp_pointwise_partial {E : Engine} {far : Pt → List Path → Prop} (hE : EngineSpec E far)
     (a b : List Poly) (op : OpType) (p : Pt)
     (ha : ∀ r ∈ rings a, ringClosed r = true) (hb : ∀ r ∈ rings b, ringClosed r = true)
@@ -337,9 +357,11 @@ private theorem rings_singletons (ms : List Poly) : (ms.map (fun m => [m])).flat
 for both windings of the first ring (Positive fill for clockwise, Negative otherwise) and every
 engine meeting the specification.
 Extra hypothesis `WindingValid` (each member's winding function is ±its indicator, the sign agreeing
-with `winding_order` of the first ring — a Jordan-type fact about valid polygons, not formalised).
+with `winding_order` of the first ring — a Jordan-type fact about valid polygons).
 Full statement: the same with `WindingValid` replaced by: every member valid, every exterior wound
-the same way and every hole the opposite way. -/
+the same way and every hole the opposite way — **proved below as `unaryUnion_region_valid`**
+(`windingValid_of_valid` derives `WindingValid` from `polyValid` and the orientation). What happens
+outside that class: `unaryUnion_fill_region`, `unaryUnion_inconsistent_witness`. -/
 theorem unaryUnion_region_partial {E : Engine} {far : Pt → List Path → Prop} (hE : EngineSpec E far)
     (ms : List Poly) (σ : Int) (p : Pt) (hw : WindingValid ms σ p)
     (hfar : far p ((ms.flatMap Poly.rings).map ringToShapePath)) :
@@ -370,6 +392,339 @@ theorem unaryUnion_region_partial {E : Engine} {far : Pt → List Path → Prop}
   · have hy : firstWinding (ms.flatMap Poly.rings) = some WO.cw := hw.first.2 h1
     simp only [hy, if_true, filled, h1]
     rw [Bool.eq_iff_iff]; simp only [decide_eq_true_eq]; omega
+
+/-! ### polygons for the examples -/
+
+def sq : Poly := ⟨[⟨0, 0⟩, ⟨4, 0⟩, ⟨4, 4⟩, ⟨0, 4⟩, ⟨0, 0⟩], []⟩
+/-- the F5 square: clockwise, one repeated vertex, closing vertex repeated -/
+def sqRep : Poly := ⟨[⟨0, 0⟩, ⟨0, 4⟩, ⟨0, 4⟩, ⟨4, 4⟩, ⟨4, 0⟩, ⟨0, 0⟩, ⟨0, 0⟩], []⟩
+
+/-! ### S2 from validity (C04X): the hypotheses of the two `_partial` theorems above, proved -/
+
+/-- a valid polygon with a hole, for the examples -/
+def sqHole : Poly :=
+  ⟨[⟨0, 0⟩, ⟨6, 0⟩, ⟨6, 6⟩, ⟨0, 6⟩, ⟨0, 0⟩], [[⟨2, 2⟩, ⟨2, 4⟩, ⟨4, 4⟩, ⟨4, 2⟩, ⟨2, 2⟩]]⟩
+
+/-- `p` lies on no ring of the (multi)polygon -/
+def offRings (p : Pt) (ps : List Poly) : Prop := ∀ r ∈ rings ps, onAnySeg p (segs r) = false
+
+instance (p : Pt) (ps : List Poly) : Decidable (offRings p ps) := by unfold offRings; infer_instance
+
+/-- [T] **spec adequacy S2 for one valid polygon, proved**: at every point off its rings the even-odd
+parity over all its rings is its interior. Each simple ring winds `0` or by the sign of its area
+(`simple_wind_level`), where a hole winds the shell winds (`hole_in_shell_level`), two holes never
+wind together (`rings_apart_level`) — Lemmas/C04XScan.lean, from the WIND / SMLX Jordan lemmas, on
+levels that avoid the coordinates; every other point off the rings has such a point just above it
+with the same winding numbers (`exists_generic`, Lemmas/C04XGeneric.lean). -/
+theorem evenOdd_eq_inside_valid (q : Poly) (p : Pt) (hv : polyValid q = true)
+    (hoff : ∀ r ∈ q.rings, onAnySeg p (segs r) = false) : evenOddRings p q.rings = polyInside p q :=
+  evenOdd_of_layered (layered_of_valid_off hv hoff)
+
+/-- on the level of the hole's lower edge and of no coordinate-free line: (3, 1) is level-free, (1, 2) is not -/
+example : evenOddRings ⟨1, 2⟩ sqHole.rings = polyInside ⟨1, 2⟩ sqHole :=
+  evenOdd_eq_inside_valid sqHole ⟨1, 2⟩ (by decide +kernel) (by decide +kernel)
+example : polyInside ⟨3, 1⟩ sqHole = true ∧ polyInside ⟨3, 3⟩ sqHole = false := by decide +kernel
+
+private theorem valid_rings_closed (a : List Poly) (ha : ∀ q ∈ a, polyValid q = true) :
+    ∀ r ∈ rings a, ringClosed r = true := by
+  intro r hr
+  obtain ⟨q, hq, hrq⟩ := List.mem_flatMap.1 hr
+  obtain ⟨hse, hsimple, _⟩ := Geo.Proofs.C02Q.polyValid_unpack (ha q hq)
+  have hs : ringSimple r = true := by
+    unfold Poly.rings at hrq
+    rcases List.mem_cons.1 hrq with rfl | h
+    · exact hse
+    · exact hsimple r h
+  have := Geo.Proofs.C12.closed_of_simple hs
+  simp [ringClosed, this]
+
+private theorem offRings_member {p : Pt} {ps : List Poly} (h : offRings p ps) {q : Poly} (hq : q ∈ ps) :
+    ∀ r ∈ q.rings, onAnySeg p (segs r) = false :=
+  fun r hr => h r (List.mem_flatMap.2 ⟨q, hq, hr⟩)
+
+/-- [Tp] **pointwise statement of the property for valid MultiPolygon operands**:
+`inside (A op B) ⇔ op (inside A, inside B)` for every engine meeting the specification and every
+point off the rings and far from them.
+Extra hypotheses `hda`, `hdb`: at most one member of each operand contains `p` (members that are
+valid one by one but may overlap each other elsewhere). For a valid MultiPolygon they are theorems
+(`members_apart`).
+Full statement: `multiPolyValid a`, `multiPolyValid b` instead of `ha`, `hb`, `hda`, `hdb` —
+**proved below as `booleanOp_pointwise`**. -/
+theorem booleanOp_pointwise_multi_partial {E : Engine} {far : Pt → List Path → Prop} (hE : EngineSpec E far)
+    (a b : List Poly) (op : OpType) (p : Pt)
+    (ha : ∀ q ∈ a, polyValid q = true) (hb : ∀ q ∈ b, polyValid q = true)
+    (hoa : offRings p a) (hob : offRings p b)
+    (hda : a.Pairwise (fun m1 m2 => polyInside p m1 = false ∨ polyInside p m2 = false))
+    (hdb : b.Pairwise (fun m1 m2 => polyInside p m1 = false ∨ polyInside p m2 = false))
+    (hfar : far p ((rings a).map ringToShapePath ++ (rings b).map ringToShapePath)) :
+    mpInside p (booleanOp E a b op) = opCombine op (mpInside p a) (mpInside p b) :=
+  booleanOp_pointwise_partial hE a b op p (valid_rings_closed a ha) (valid_rings_closed b hb) hfar
+    (evenOdd_multi p a (fun q hq => layered_of_valid_off (ha q hq) (offRings_member hoa hq)) hda)
+    (evenOdd_multi p b (fun q hq => layered_of_valid_off (hb q hq) (offRings_member hob hq)) hdb)
+
+/-- [T] **pointwise statement of the property for valid Polygon operands, at full strength** (S2 no
+longer assumed): for every engine meeting the specification, all four operations, polygons with
+holes, either winding, repeated vertices and repeated closing vertices, and every point off the rings
+and far from them: `inside (A op B) ⇔ op (inside A, inside B)`, `Difference = A ∧ ¬B`. -/
+theorem booleanOp_pointwise_polygon {E : Engine} {far : Pt → List Path → Prop} (hE : EngineSpec E far)
+    (a b : Poly) (op : OpType) (p : Pt)
+    (ha : polyValid a = true) (hb : polyValid b = true)
+    (hoa : offRings p [a]) (hob : offRings p [b])
+    (hfar : far p ((rings [a]).map ringToShapePath ++ (rings [b]).map ringToShapePath)) :
+    mpInside p (booleanOp E [a] [b] op) = opCombine op (polyInside p a) (polyInside p b) := by
+  have h := booleanOp_pointwise_multi_partial hE [a] [b] op p
+    (fun q hq => by rw [List.mem_singleton.1 hq]; exact ha)
+    (fun q hq => by rw [List.mem_singleton.1 hq]; exact hb)
+    hoa hob
+    (List.pairwise_singleton _ _) (List.pairwise_singleton _ _) hfar
+  rw [h]
+  simp [mpInside]
+
+/-- "consistently wound" in terms of exact areas: `σ = 1` every exterior counter-clockwise and every
+hole clockwise, `σ = -1` the other way round -/
+def ConsistentlyWound (ms : List Poly) (σ : Int) : Prop :=
+  (σ = 1 ∨ σ = -1) ∧
+  ∀ m ∈ ms, 0 < (σ : Rat) * shoelace2 m.ext ∧ ∀ h ∈ m.ints, (σ : Rat) * shoelace2 h < 0
+
+private theorem firstWinding_of_valid (m : Poly) (t : List Poly) (hv : polyValid m = true) :
+    (firstWinding ((m :: t).flatMap Poly.rings) = some .cw ↔ shoelace2 m.ext < 0) ∧
+    (0 < shoelace2 m.ext ∨ shoelace2 m.ext < 0) := by
+  obtain ⟨hse, _, _⟩ := Geo.Proofs.C02Q.polyValid_unpack hv
+  have hc := Geo.Proofs.C12.closed_of_simple hse
+  obtain ⟨h1, h2, h3, h4⟩ := Geo.Proofs.C05.windingOrder_eq_sign_area_simple m.ext hse
+  rw [Geo.Proofs.C05L.twice_closed m.ext hc] at h1 h2 h4
+  have hr : (m :: t).flatMap Poly.rings = m.ext :: (m.ints ++ t.flatMap Poly.rings) := by
+    simp [Poly.rings]
+  rw [hr]
+  cases hw : windingOrder m.ext with
+  | none => exact absurd hw h3
+  | some w =>
+    have hf : firstWinding (m.ext :: (m.ints ++ t.flatMap Poly.rings)) = some w := by
+      simp [firstWinding, hw]
+    rw [hf]
+    cases w with
+    | cw =>
+      have := h2.1 hw
+      exact ⟨⟨fun _ => this, fun _ => rfl⟩, Or.inr this⟩
+    | ccw =>
+      have := h1.1 hw
+      refine ⟨⟨fun h => (by cases h), fun h => absurd h (not_lt.2 (le_of_lt this))⟩, Or.inl this⟩
+
+/-- [T] `WindingValid`, the hypothesis of `unaryUnion_region_partial`, holds for every non-empty
+consistently wound collection of valid polygons at every point off the rings: each member's winding
+function is `σ ·` its indicator (`windRings_of_layered`) and the first ring's `winding_order` is the
+sign of its area (C05 `windingOrder_eq_sign_area_simple`). -/
+theorem windingValid_of_valid (ms : List Poly) (σ : Int) (p : Pt) (hne : ms ≠ [])
+    (hv : ∀ m ∈ ms, polyValid m = true) (hw : ConsistentlyWound ms σ)
+    (hoff : offRings p ms) : WindingValid ms σ p := by
+  obtain ⟨hσ, hor⟩ := hw
+  refine ⟨hσ, ?_, ?_, ?_⟩
+  · cases ms with
+    | nil => exact absurd rfl hne
+    | cons m t =>
+      obtain ⟨hf, _⟩ := firstWinding_of_valid m t (hv m List.mem_cons_self)
+      have he := (hor m List.mem_cons_self).1
+      rw [hf]
+      rcases hσ with rfl | rfl
+      · push_cast at he
+        constructor
+        · intro h; linarith
+        · intro h; cases h
+      · push_cast at he
+        constructor
+        · intro _; rfl
+        · intro _; linarith
+  · intro m hm
+    exact windRings_of_layered (layered_of_valid_off (hv m hm) (offRings_member hoff hm)) hσ
+      (hor m hm).1 (hor m hm).2
+  · intro m hm r hr
+    exact valid_rings_closed [m] (fun q hq => by rw [List.mem_singleton.1 hq]; exact hv m hm) r
+      (by simp [rings, hr])
+
+/-- [T] **`unary_union` of a consistently wound collection of valid polygons covers exactly the union
+of its members, at full strength** (overlapping, edge-sharing, nested members included; `WindingValid`
+no longer assumed): the Positive rule for a clockwise first ring, the Negative rule otherwise, select
+`{p | ∃ member, inside member p}` — for every engine meeting the specification and every point off
+the rings and far from them. With `foldUnion_region`: the same region as the fold of pairwise unions. -/
+theorem unaryUnion_region_valid {E : Engine} {far : Pt → List Path → Prop} (hE : EngineSpec E far)
+    (ms : List Poly) (σ : Int) (p : Pt)
+    (hv : ∀ m ∈ ms, polyValid m = true) (hw : ConsistentlyWound ms σ)
+    (hoff : offRings p ms)
+    (hfar : far p ((ms.flatMap Poly.rings).map ringToShapePath)) :
+    mpInside p (unaryUnion E (ms.map (fun m => [m]))) = ms.any (polyInside p) := by
+  by_cases hne : ms = []
+  · subst hne
+    exact unaryUnion_region_partial hE [] 1 p
+      ⟨Or.inl rfl, by simp [firstWinding], by simp, by simp⟩ hfar
+  · exact unaryUnion_region_partial hE ms σ p (windingValid_of_valid ms σ p hne hv hw hoff) hfar
+
+/-- [T] **what `unary_union` computes on every collection, consistently wound or not**: the
+Positive / Negative region of the *summed* winding numbers of all rings, the rule taken from the
+first ring that has a winding order. No validity, no orientation hypothesis. For an inconsistently
+wound collection the members wound against the first ring count with the wrong sign: alone they are
+dropped, over another member they cut a hole (next theorem; the driver records the same behaviour of
+the real code, tag `mixed … region=fill-rule`). -/
+theorem unaryUnion_fill_region {E : Engine} {far : Pt → List Path → Prop} (hE : EngineSpec E far)
+    (ms : List Poly) (p : Pt) (hc : ∀ r ∈ ms.flatMap Poly.rings, ringClosed r = true)
+    (hfar : far p ((ms.flatMap Poly.rings).map ringToShapePath)) :
+    mpInside p (unaryUnion E (ms.map (fun m => [m]))) =
+      filled (unaryFillRule (ms.flatMap Poly.rings)) (-(windRings p (ms.flatMap Poly.rings))) := by
+  unfold unaryUnion
+  simp only [rings_singletons]
+  have hok : ∀ q ∈ (ms.flatMap Poly.rings).map ringToShapePath, pathOk q = true := by
+    intro q hq
+    obtain ⟨r, _, rfl⟩ := List.mem_map.1 hq
+    exact ringToShapePath_pathOk r
+  rw [multiPolygonFromShapes_inside, hE.single_region _ _ p hok hfar]
+  unfold fillRegion
+  rw [windPaths_rings p _ hc]
+
+/-- a clockwise square away from `sq` -/
+def sqFarCw : Poly := ⟨[⟨10, 0⟩, ⟨10, 4⟩, ⟨14, 4⟩, ⟨14, 0⟩, ⟨10, 0⟩], []⟩
+/-- a clockwise square overlapping `sq` -/
+def sqOverCw : Poly := ⟨[⟨2, 2⟩, ⟨2, 6⟩, ⟨6, 6⟩, ⟨6, 2⟩, ⟨2, 2⟩], []⟩
+
+/-- [T] **witness for inconsistently wound input**: a counter-clockwise square followed by a
+clockwise one. For every engine meeting the specification the clockwise member is *not* part of the
+result although it is part of the union (the Negative rule, chosen from the first ring, does not
+fill winding number −1); and where a clockwise member overlaps the first one the overlap is cut out
+(winding number 0). `unary_union` is the union only on its stated domain. -/
+theorem unaryUnion_inconsistent_witness {E : Engine} {far : Pt → List Path → Prop} (hE : EngineSpec E far) :
+    (far ⟨11, 1⟩ (([sq, sqFarCw].flatMap Poly.rings).map ringToShapePath) →
+      mpInside ⟨11, 1⟩ (unaryUnion E ([sq, sqFarCw].map (fun m => [m]))) = false ∧
+      [sq, sqFarCw].any (polyInside ⟨11, 1⟩) = true) ∧
+    (far ⟨3, 3⟩ (([sq, sqOverCw].flatMap Poly.rings).map ringToShapePath) →
+      mpInside ⟨3, 3⟩ (unaryUnion E ([sq, sqOverCw].map (fun m => [m]))) = false ∧
+      [sq, sqOverCw].any (polyInside ⟨3, 3⟩) = true) := by
+  constructor
+  · intro hfar
+    rw [unaryUnion_fill_region hE _ _ (by decide +kernel) hfar]
+    decide +kernel
+  · intro hfar
+    rw [unaryUnion_fill_region hE _ _ (by decide +kernel) hfar]
+    decide +kernel
+
+private theorem consistentlyWound_ex : ConsistentlyWound [sqHole, sq] 1 :=
+  ⟨Or.inl rfl, by
+    intro m hm
+    simp only [List.mem_cons, List.not_mem_nil, or_false] at hm
+    rcases hm with rfl | rfl
+    · refine ⟨by norm_num [sqHole, shoelace2, det], ?_⟩
+      intro h hh
+      simp only [sqHole, List.mem_singleton] at hh
+      subst hh
+      norm_num [shoelace2, det]
+    · exact ⟨by norm_num [sq, shoelace2, det], by intro h hh; simp [sq] at hh⟩⟩
+
+/-- [Tp] **pointwise statement of the property for valid MultiPolygon operands whose members have no
+holes**: member disjointness is proved from `multiPolyValid` (`II = F`, `dim BB ≤ 0` per pair is then
+the ring-level statement `rings_apart_level`), so nothing topological is assumed.
+Extra hypotheses `hha`, `hhb`: no member has a hole (then member disjointness is the ring-level
+statement `rings_apart_level`; kept as the short route).
+Full statement: the same without `hha`, `hhb` — **proved below as `booleanOp_pointwise`**. -/
+theorem booleanOp_pointwise_multi_holefree_partial {E : Engine} {far : Pt → List Path → Prop}
+    (hE : EngineSpec E far) (a b : List Poly) (op : OpType) (p : Pt)
+    (ha : multiPolyValid a = true) (hb : multiPolyValid b = true)
+    (hha : ∀ m ∈ a, m.ints = []) (hhb : ∀ m ∈ b, m.ints = [])
+    (hoa : offRings p a) (hob : offRings p b)
+    (hfar : far p ((rings a).map ringToShapePath ++ (rings b).map ringToShapePath)) :
+    mpInside p (booleanOp E a b op) = opCombine op (mpInside p a) (mpInside p b) :=
+  booleanOp_pointwise_multi_partial hE a b op p (multiPolyValid_members ha) (multiPolyValid_members hb)
+    hoa hob (members_apart_holefree ha hha p hoa) (members_apart_holefree hb hhb p hob) hfar
+
+/-- [T] **the pointwise statement of the property, at full strength, for valid MultiPolygon operands**:
+for every engine meeting the specification, all four operations, members with holes, either winding,
+repeated vertices, and every point off the rings and far from them,
+`inside (A op B) ⇔ op (inside A, inside B)` with `Difference = A ∧ ¬B`. Nothing topological is assumed:
+S2 for each member is `evenOdd_eq_inside_valid`, and at most one member of a valid MultiPolygon
+contains the point (`members_apart`, Lemmas/C04XMembers.lean: from `II = F`, `dim BB ≤ 0` of
+`multiPolyValid` by a scan to the nearest crossing and the atoms of the DE-9IM specification). -/
+theorem booleanOp_pointwise {E : Engine} {far : Pt → List Path → Prop} (hE : EngineSpec E far)
+    (a b : List Poly) (op : OpType) (p : Pt)
+    (ha : multiPolyValid a = true) (hb : multiPolyValid b = true)
+    (hoa : offRings p a) (hob : offRings p b)
+    (hfar : far p ((rings a).map ringToShapePath ++ (rings b).map ringToShapePath)) :
+    mpInside p (booleanOp E a b op) = opCombine op (mpInside p a) (mpInside p b) :=
+  booleanOp_pointwise_multi_partial hE a b op p (multiPolyValid_members ha) (multiPolyValid_members hb)
+    hoa hob (members_apart ha p hoa) (members_apart hb p hob) hfar
+
+/-- two members, one with a hole, the other inside that hole -/
+def sqInHole : Poly := ⟨[⟨5/2, 5/2⟩, ⟨7/2, 5/2⟩, ⟨7/2, 7/2⟩, ⟨5/2, 7/2⟩, ⟨5/2, 5/2⟩], []⟩
+
+example : multiPolyValid [sqHole, sqInHole] = true ∧ offRings ⟨1, 1⟩ [sqHole, sqInHole] := by
+  decide +kernel
+
+/-- a counter-clockwise square away from `sq` -/
+def sqFar : Poly := ⟨[⟨10, 0⟩, ⟨14, 0⟩, ⟨14, 4⟩, ⟨10, 4⟩, ⟨10, 0⟩], []⟩
+
+example : multiPolyValid [sq, sqFar] = true ∧ (∀ m ∈ [sq, sqFar], m.ints = []) ∧
+    offRings ⟨1, 1⟩ [sq, sqFar] := by decide +kernel
+
+/-- `sqHole` clockwise, with a repeated vertex and repeated closing vertices -/
+def sqHoleRep : Poly :=
+  ⟨[⟨0, 0⟩, ⟨6, 0⟩, ⟨6, 0⟩, ⟨6, 6⟩, ⟨0, 6⟩, ⟨0, 0⟩, ⟨0, 0⟩],
+   [[⟨2, 2⟩, ⟨2, 4⟩, ⟨4, 4⟩, ⟨4, 2⟩, ⟨2, 2⟩, ⟨2, 2⟩, ⟨2, 2⟩]]⟩
+
+/-! ### The glue round trip (C04X) -/
+
+/-- [T] **`polygon_from_shape ∘ ring_to_shape_path`, for every polygon**: the polygon rebuilt from the
+paths of a polygon's own rings has one ring per ring, exterior first, holes after in the same order;
+each is the path closed once and reversed (`coreRing r = close (ring_to_shape_path r)`; the engine's
+shapes are wound the other way round, which `polygon_from_shape` undoes). -/
+theorem glue_roundTrip (q : Poly) :
+    polygonFromShape (q.rings.map ringToShapePath) =
+      ⟨(coreRing q.ext).reverse, q.ints.map (fun h => (coreRing h).reverse)⟩ :=
+  roundTrip_poly q
+
+/-- [T] **… reproduces a valid polygon's rings up to the dropped closing coordinates**: for every
+ring `r` of a valid polygon, `coreRing r` is the path plus one closing coordinate, and `r` is
+`coreRing r` followed by `k ≥ 0` further copies of the closing coordinate — nothing else is lost,
+for all valid polygons (repeated vertices and repeated closing vertices included). -/
+theorem glue_roundTrip_valid (q : Poly) (hv : polyValid q = true) :
+    ∀ r ∈ q.rings, ∃ k : Nat, r = coreRing r ++ List.replicate k (r.headD ⟨0, 0⟩) ∧
+      coreRing r = ringToShapePath r ++ [r.headD ⟨0, 0⟩] := by
+  intro r hr
+  obtain ⟨hse, hsimple, _⟩ := Geo.Proofs.C02Q.polyValid_unpack hv
+  have hs : ringSimple r = true := by
+    unfold Poly.rings at hr
+    rcases List.mem_cons.1 hr with rfl | h
+    · exact hse
+    · exact hsimple r h
+  have hc := Geo.Proofs.C12.closed_of_simple hs
+  obtain ⟨a, b, ha, hb, hab⟩ := Geo.Proofs.SMLX.simple_two_coords hs
+  apply coreRing_decomp r (by simp [ringClosed, hc])
+  by_cases h1 : a = r.headD ⟨0, 0⟩
+  · exact ⟨b, hb, fun h => hab (h1.trans h.symm)⟩
+  · exact ⟨a, ha, h1⟩
+
+/-- [T] a ring whose last-but-one coordinate is not the closing coordinate comes back exactly
+(reversed twice = itself): `coreRing r = r`. -/
+theorem glue_roundTrip_exact (r : List Pt) (hc : ringClosed r = true)
+    (h2 : ∃ v ∈ r, v ≠ r.headD ⟨0, 0⟩) (hl : r.dropLast.getLast? ≠ r.head?) : coreRing r = r :=
+  coreRing_eq_self r hc h2 hl
+
+/-- [T] the round trip keeps the region, for every polygon with closed rings. -/
+theorem glue_roundTrip_region (p : Pt) (q : Poly) (hc : ∀ r ∈ q.rings, ringClosed r = true) :
+    polyInside p (polygonFromShape (q.rings.map ringToShapePath)) = polyInside p q := by
+  rw [polygonFromShape_inside]
+  simp only [Poly.rings, List.map_cons, shapeInside, polyInside, List.all_map]
+  rw [ringToShapePath_wind p q.ext (hc _ (by simp [Poly.rings]))]
+  have hall : ∀ l : List (List Pt), (∀ h ∈ l, ringClosed h = true) →
+      l.all ((fun h => windPath p h == 0) ∘ ringToShapePath) = l.all (fun h => windRing p h == 0) := by
+    intro l hl
+    induction l with
+    | nil => rfl
+    | cons h t ih =>
+      simp only [List.all_cons, Function.comp] at ih ⊢
+      rw [ringToShapePath_wind p h (hl h (by simp)), ih (fun g hg => hl g (by simp [hg]))]
+  rw [hall q.ints (fun h hh => hc h (by simp [Poly.rings, hh]))]
+
+example : polygonFromShape (sqHoleRep.rings.map ringToShapePath) =
+    ⟨[⟨0, 0⟩, ⟨0, 6⟩, ⟨6, 6⟩, ⟨6, 0⟩, ⟨6, 0⟩, ⟨0, 0⟩], [[⟨2, 2⟩, ⟨4, 2⟩, ⟨4, 4⟩, ⟨2, 4⟩, ⟨2, 2⟩]]⟩ := by
+  decide +kernel
+example : polyValid sqHoleRep = true := by decide +kernel
+example : coreRing sq.ext = sq.ext :=
+  glue_roundTrip_exact _ (by decide +kernel) ⟨⟨4, 0⟩, by simp [sq], by decide +kernel⟩ (by decide +kernel)
 
 /-- [T] the region of the fold of pairwise unions (each step `acc ∪ m`, pointwise `acc ∨ inside m` by
 `booleanOp_pointwise_partial`) is the union of the members: the same region as `unary_union`. -/
@@ -422,6 +777,148 @@ theorem clip_subset {E : Engine} {far : Pt → List Path → Prop} (hE : EngineS
   simp only [multiLineStringFromPaths_id] at h
   exact hE.clip_subset ls _ _ invert true p hfar h
 
+/-! ### The area identities and length conservation at the level of the specification (C04X) -/
+
+/-- [T] **the three area identities of the property, for the region semantics of BoolSpec and every
+measure**: `μ` any functional on regions that is finitely additive and ignores what happens outside
+`dom` (`AdditiveOn dom μ`; the exact area restricted to the points off the tolerance band is one,
+every weighted finite sample is one — `sampleMeasure_additive`). -/
+theorem area_identities {dom : Pt → Prop} {μ : Region → Rat} (hμ : AdditiveOn dom μ) (A B : Region) :
+    μ (opRegion .union A B) + μ (opRegion .intersection A B) = μ A + μ B ∧
+    μ (opRegion .difference A B) = μ A - μ (opRegion .intersection A B) ∧
+    μ (opRegion .xor A B) = μ (opRegion .union A B) - μ (opRegion .intersection A B) :=
+  ⟨measure_union_add_inter hμ A B, measure_difference hμ A B, measure_xor hμ A B⟩
+
+/-- [T] the expected areas the driver's oracle demands of the four results are forced by additivity:
+`μ(A op B) = expectedArea op μ(A) μ(B) μ(A∩B)` for every measure. -/
+theorem area_eq_expectedArea {dom : Pt → Prop} {μ : Region → Rat} (hμ : AdditiveOn dom μ)
+    (op : OpType) (A B : Region) :
+    μ (opRegion op A B) = expectedArea op (μ A) (μ B) (μ (opRegion .intersection A B)) :=
+  measure_eq_expectedArea hμ op A B
+
+/-- [T] **the area identities for the results of the four operations**: for every engine meeting the
+specification, operands with closed rings and every measure that lives on the points far from the
+input boundaries (the identities hold "up to the tolerance": whatever the engine does inside the
+tolerance band is not measured),
+`area(A∩B) + area(A∪B) = area(A) + area(B)`, `area(A−B) = area(A) − area(A∩B)`,
+`area(A xor B) = area(A∪B) − area(A∩B)`, and each result has the area the oracle expects. -/
+theorem booleanOp_area_identities {E : Engine} {far : Pt → List Path → Prop} (hE : EngineSpec E far)
+    (a b : List Poly)
+    (ha : ∀ r ∈ rings a, ringClosed r = true) (hb : ∀ r ∈ rings b, ringClosed r = true)
+    {μ : Region → Rat}
+    (hμ : AdditiveOn (fun p => far p ((rings a).map ringToShapePath ++ (rings b).map ringToShapePath)) μ) :
+    let R : OpType → Region := fun op p => mpInside p (booleanOp E a b op)
+    let A : Region := fun p => evenOddRings p (rings a)
+    let B : Region := fun p => evenOddRings p (rings b)
+    (μ (R .union) + μ (R .intersection) = μ A + μ B ∧
+     μ (R .difference) = μ A - μ (R .intersection) ∧
+     μ (R .xor) = μ (R .union) - μ (R .intersection)) ∧
+    ∀ op, μ (R op) = expectedArea op (μ A) (μ B) (μ (R .intersection)) := by
+  intro R A B
+  have hR : ∀ op, μ (R op) = μ (opRegion op A B) := by
+    intro op
+    apply hμ.congr
+    intro p hp
+    exact booleanOp_evenOdd hE a b op p ha hb hp
+  refine ⟨?_, ?_⟩
+  · rw [hR .union, hR .intersection, hR .difference, hR .xor]
+    exact area_identities hμ A B
+  · intro op
+    rw [hR op, hR .intersection]
+    exact measure_eq_expectedArea hμ op A B
+
+/-- [T] the identities hold for the expected areas themselves (what the oracle compares the
+implementation's areas with). -/
+theorem expectedArea_identities (aA aB aI : Rat) :
+    expectedArea .union aA aB aI + expectedArea .intersection aA aB aI = aA + aB ∧
+    expectedArea .difference aA aB aI = aA - expectedArea .intersection aA aB aI ∧
+    expectedArea .xor aA aB aI = expectedArea .union aA aB aI - expectedArea .intersection aA aB aI :=
+  ⟨expectedArea_union_add_inter aA aB aI, expectedArea_difference aA aB aI, expectedArea_xor aA aB aI⟩
+
+/-- [T] **the driver's exact area functional**: the signed fan triangles from which the oracle computes
+`|A∩B| = Σ wᵢwⱼ·|Tᵢ∩Tⱼ|` carry exactly the shoelace area, `Σ wᵢ·|Tᵢ| = |A|`, from any apex and for
+every (multi)polygon with closed rings. -/
+theorem oracle_fan_area (o : Pt) (ps : List Poly) (hc : ∀ p ∈ ps, ∀ r ∈ p.rings, ringClosed r = true) :
+    fanArea (mpFan o ps) = mpArea ps :=
+  mpFan_area o ps (fun p hp r hr => by simpa [ringClosed] using hc p hp r hr)
+
+/-- [T] **`clip` conserves length**: for every engine meeting the specification and every measure `ν`
+on the points far from the polygon's boundary (arc length restricted to them; any weighted sample of
+the line), the part kept by `clip(ls, false)` and the part kept by `clip(ls, true)` add up to the line:
+`ν(inside) + ν(outside) = ν(total)`. -/
+theorem clip_length_conserved {E : Engine} {far : Pt → List Path → Prop} (hE : EngineSpec E far)
+    (a : List Poly) (ls : List (List Pt)) (ha : ∀ r ∈ rings a, ringClosed r = true)
+    {ν : Region → Rat} (hν : AdditiveOn (fun p => far p ((rings a).map ringToShapePath)) ν) :
+    ν (fun p => onLines p (clip E a ls false)) + ν (fun p => onLines p (clip E a ls true)) =
+      ν (fun p => onLines p ls) := by
+  have key : ∀ p, far p ((rings a).map ringToShapePath) →
+      (onLines p (clip E a ls false) || onLines p (clip E a ls true)) = onLines p ls ∧
+      (onLines p (clip E a ls false) && onLines p (clip E a ls true)) = false := by
+    intro p hp
+    cases hon : onLines p ls with
+    | true =>
+      obtain ⟨h1, h2⟩ := clip_partition hE a ls p ha hp hon
+      rw [h1, h2]
+      cases evenOddRings p (rings a) <;> exact ⟨rfl, rfl⟩
+    | false =>
+      have f1 : onLines p (clip E a ls false) = false := by
+        cases h : onLines p (clip E a ls false) with
+        | false => rfl
+        | true => rw [clip_subset hE a ls false p hp h] at hon; cases hon
+      have f2 : onLines p (clip E a ls true) = false := by
+        cases h : onLines p (clip E a ls true) with
+        | false => rfl
+        | true => rw [clip_subset hE a ls true p hp h] at hon; cases hon
+      rw [f1, f2]; exact ⟨rfl, rfl⟩
+  exact measure_partition hν _ _ _ (fun p hp => (key p hp).1) (fun p hp => (key p hp).2)
+
+/-! ### S2 for MultiPolygons, `clip` and the area identities in terms of the operands' interiors (C04X) -/
+
+/-- [T] **spec adequacy S2 for a valid MultiPolygon, proved**: at every point off the rings the
+even-odd parity over all rings of all members is membership in some member. -/
+theorem evenOdd_eq_inside_multi (a : List Poly) (p : Pt) (ha : multiPolyValid a = true)
+    (hoa : offRings p a) : evenOddRings p (rings a) = mpInside p a :=
+  evenOdd_multi p a
+    (fun q hq => layered_of_valid_off (multiPolyValid_members ha q hq) (offRings_member hoa hq))
+    (members_apart ha p hoa)
+
+/-- [T] **`clip` keeps exactly the parts of the line inside the polygon** (inverted: outside), for a
+valid (Multi)Polygon, every engine meeting the specification and every point of the line off the rings
+and far from them: it lies on `clip(ls, false)` iff it is inside, on `clip(ls, true)` iff it is not. -/
+theorem clip_partition_valid {E : Engine} {far : Pt → List Path → Prop} (hE : EngineSpec E far)
+    (a : List Poly) (ls : List (List Pt)) (p : Pt) (ha : multiPolyValid a = true) (hoa : offRings p a)
+    (hfar : far p ((rings a).map ringToShapePath)) (hon : onLines p ls = true) :
+    onLines p (clip E a ls false) = mpInside p a ∧ onLines p (clip E a ls true) = !(mpInside p a) := by
+  have h := clip_partition hE a ls p (valid_rings_closed a (multiPolyValid_members ha)) hfar hon
+  rw [evenOdd_eq_inside_multi a p ha hoa] at h
+  exact h
+
+/-- [T] **the area identities for the results of the four operations on valid operands, in terms of
+the operands' interiors**: as `booleanOp_area_identities`, with `area(A)`, `area(B)` the measures of
+`{p | inside A p}`, `{p | inside B p}`; `hfo`: a far point is off the rings. -/
+theorem booleanOp_area_identities_valid {E : Engine} {far : Pt → List Path → Prop} (hE : EngineSpec E far)
+    (a b : List Poly) (ha : multiPolyValid a = true) (hb : multiPolyValid b = true)
+    (hfo : ∀ p, far p ((rings a).map ringToShapePath ++ (rings b).map ringToShapePath) →
+      offRings p a ∧ offRings p b)
+    {μ : Region → Rat}
+    (hμ : AdditiveOn (fun p => far p ((rings a).map ringToShapePath ++ (rings b).map ringToShapePath)) μ) :
+    let R : OpType → Region := fun op p => mpInside p (booleanOp E a b op)
+    let A : Region := fun p => mpInside p a
+    let B : Region := fun p => mpInside p b
+    (μ (R .union) + μ (R .intersection) = μ A + μ B ∧
+     μ (R .difference) = μ A - μ (R .intersection) ∧
+     μ (R .xor) = μ (R .union) - μ (R .intersection)) ∧
+    ∀ op, μ (R op) = expectedArea op (μ A) (μ B) (μ (R .intersection)) := by
+  intro R A B
+  have h := booleanOp_area_identities hE a b (valid_rings_closed a (multiPolyValid_members ha))
+    (valid_rings_closed b (multiPolyValid_members hb)) hμ
+  have eA : μ (fun p => evenOddRings p (rings a)) = μ A :=
+    hμ.congr _ _ (fun p hp => evenOdd_eq_inside_multi a p ha (hfo p hp).1)
+  have eB : μ (fun p => evenOddRings p (rings b)) = μ B :=
+    hμ.congr _ _ (fun p hp => evenOdd_eq_inside_multi b p hb (hfo p hp).2)
+  simp only [eA, eB] at h
+  exact h
+
 /-! ### The oracle's membership test is the region of the theorems -/
 
 private theorem locateParts_areal (ps : List Poly) (p : Pt) :
@@ -463,9 +960,6 @@ theorem insideSpec_eq_mpInside (ps : List Poly) (p : Pt)
 
 /-! ### Non-vacuity -/
 
-def sq : Poly := ⟨[⟨0, 0⟩, ⟨4, 0⟩, ⟨4, 4⟩, ⟨0, 4⟩, ⟨0, 0⟩], []⟩
-/-- the F5 square: clockwise, one repeated vertex, closing vertex repeated -/
-def sqRep : Poly := ⟨[⟨0, 0⟩, ⟨0, 4⟩, ⟨0, 4⟩, ⟨4, 4⟩, ⟨4, 0⟩, ⟨0, 0⟩, ⟨0, 0⟩], []⟩
 
 example : windPath ⟨1, 1⟩ (ringToShapePath sqRep.ext) = -1 := by decide +kernel
 example : ringClosed sqRep.ext = true := by decide +kernel
@@ -547,5 +1041,156 @@ example : onLines ⟨1, 1⟩ (clip E1 [sq] [[⟨0, 1⟩, ⟨5, 1⟩]] false) = t
   have h := clip_partition E1_spec [sq] [[⟨0, 1⟩, ⟨5, 1⟩]] ⟨1, 1⟩ (by decide +kernel) rfl (by decide +kernel)
   rw [h.1, h.2]
   constructor <;> decide +kernel
+
+/-- Non-vacuity of the C04X theorems with the engine `E1`: a measure that lives on `far1`; the proved
+S2 form of the pointwise statement; `unary_union` of a consistently wound valid collection; the area
+identities and length conservation for that measure. -/
+theorem sample_far1 (ps : List Path) : AdditiveOn (fun p => far1 p ps) (sampleMeasure [(⟨1, 1⟩, 3)]) :=
+  sampleMeasure_additive _ _ (by intro s hs; simp only [List.mem_singleton] at hs; subst hs; rfl)
+
+example : mpInside ⟨1, 1⟩ (booleanOp E1 [sq] [sqHole] .intersection) = true := by
+  rw [booleanOp_pointwise_polygon E1_spec sq sqHole .intersection ⟨1, 1⟩ (by decide +kernel)
+    (by decide +kernel) (by decide +kernel) (by decide +kernel) rfl]
+  decide +kernel
+
+example : mpInside ⟨1, 1⟩ (booleanOp E1 [sq, sqFar] [sq] .intersection) = true := by
+  rw [booleanOp_pointwise_multi_holefree_partial E1_spec [sq, sqFar] [sq] .intersection ⟨1, 1⟩
+    (by decide +kernel) (by decide +kernel) (by decide +kernel) (by decide +kernel) (by decide +kernel)
+    (by decide +kernel) rfl]
+  decide +kernel
+
+example : mpInside ⟨1, 1⟩ (booleanOp E1 [sqHole, sqInHole] [sq] .intersection) = true := by
+  rw [booleanOp_pointwise E1_spec [sqHole, sqInHole] [sq] .intersection ⟨1, 1⟩
+    (by decide +kernel) (by decide +kernel) (by decide +kernel) (by decide +kernel) rfl]
+  decide +kernel
+
+example : mpInside ⟨1, 1⟩ (unaryUnion E1 ([sqHole, sq].map (fun m => [m]))) = true := by
+  rw [unaryUnion_region_valid E1_spec [sqHole, sq] 1 ⟨1, 1⟩ (by decide +kernel)
+    consistentlyWound_ex (by decide +kernel) rfl]
+  decide +kernel
+
+example :
+    sampleMeasure [(⟨1, 1⟩, 3)] (fun p => mpInside p (booleanOp E1 [sq] [sqHole] .union)) +
+    sampleMeasure [(⟨1, 1⟩, 3)] (fun p => mpInside p (booleanOp E1 [sq] [sqHole] .intersection)) =
+    sampleMeasure [(⟨1, 1⟩, 3)] (fun p => evenOddRings p (rings [sq])) +
+    sampleMeasure [(⟨1, 1⟩, 3)] (fun p => evenOddRings p (rings [sqHole])) :=
+  (booleanOp_area_identities E1_spec [sq] [sqHole] (by decide +kernel) (by decide +kernel)
+    (sample_far1 _)).1.1
+
+example :
+    sampleMeasure [(⟨1, 1⟩, 3)] (fun p => onLines p (clip E1 [sq] [[⟨0, 1⟩, ⟨5, 1⟩]] false)) +
+    sampleMeasure [(⟨1, 1⟩, 3)] (fun p => onLines p (clip E1 [sq] [[⟨0, 1⟩, ⟨5, 1⟩]] true)) =
+    sampleMeasure [(⟨1, 1⟩, 3)] (fun p => onLines p [[⟨0, 1⟩, ⟨5, 1⟩]]) :=
+  clip_length_conserved E1_spec [sq] [[⟨0, 1⟩, ⟨5, 1⟩]] (by decide +kernel) (sample_far1 _)
+
+example : fanArea (mpFan ⟨-1, -1⟩ [sqHole]) = 32 := by
+  rw [oracle_fan_area _ _ (by decide +kernel)]
+  norm_num [mpArea, polyArea, sumR, sqHole, shoelace2, det, rabs]
+
+/-! ### Non-vacuity, continued: an engine that answers about an arbitrary point -/
+
+/-- the engine `E1` for an arbitrary point `c` and a shape `sh` that contains it -/
+def Ec (c : Pt) (sh : Shape) : Engine :=
+  { overlay := fun s c' r f => if ruleCombine r (fillRegion f s c) (fillRegion f c' c) then [sh] else []
+    single := fun s f => if fillRegion f s c then [sh] else []
+    clip := fun l c' f invert _ =>
+      if onLines c l && (fillRegion f c' c != invert) then [[c]] else [] }
+def farc (c : Pt) (p : Pt) (_ : List Path) : Prop := p = c
+
+private theorem pt_onLines_c (c : Pt) : onLines c [[c]] = true := by
+  simp [onLines]
+
+theorem Ec_spec (c : Pt) (sh : Shape) (hin : shapesInside c [sh] = true) (hok : shapeOk sh = true) :
+    EngineSpec (Ec c sh) (farc c) where
+  overlay_region := by
+    intro s c' r f p _ hp
+    rw [show p = c from hp]
+    simp only [Ec]
+    cases ruleCombine r (fillRegion f s c) (fillRegion f c' c)
+    · rfl
+    · exact hin
+  overlay_shape := by
+    intro s c' r f _ sh' hsh
+    simp only [Ec] at hsh
+    split at hsh
+    · rw [List.mem_singleton.1 hsh]; exact hok
+    · simp at hsh
+  single_region := by
+    intro s f p _ hp
+    rw [show p = c from hp]
+    simp only [Ec]
+    cases fillRegion f s c
+    · rfl
+    · exact hin
+  single_shape := by
+    intro s f _ sh' hsh
+    simp only [Ec] at hsh
+    split at hsh
+    · rw [List.mem_singleton.1 hsh]; exact hok
+    · simp at hsh
+  clip_region := by
+    intro l c' f invert p _ hp hon
+    rw [show p = c from hp] at hon ⊢
+    simp only [Ec, hon, Bool.true_and]
+    cases (fillRegion f c' c != invert)
+    · rfl
+    · exact pt_onLines_c c
+  clip_subset := by
+    intro l c' f invert incl p hp h
+    rw [show p = c from hp] at h ⊢
+    simp only [Ec] at h
+    cases hl : onLines c l
+    · rw [hl] at h; simp [onLines] at h
+    · rfl
+
+/-- the witness for inconsistently wound input is not vacuous: an engine meeting the specification with
+(11, 1), resp. (3, 3), far; `unary_union` of the counter-clockwise and the clockwise square misses the
+point although a member contains it. -/
+example : mpInside ⟨11, 1⟩ (unaryUnion (Ec ⟨11, 1⟩ [[⟨10, 0⟩, ⟨10, 4⟩, ⟨14, 4⟩, ⟨14, 0⟩]])
+      ([sq, sqFarCw].map (fun m => [m]))) = false ∧
+    [sq, sqFarCw].any (polyInside ⟨11, 1⟩) = true :=
+  (unaryUnion_inconsistent_witness
+    (Ec_spec ⟨11, 1⟩ [[⟨10, 0⟩, ⟨10, 4⟩, ⟨14, 4⟩, ⟨14, 0⟩]] (by decide +kernel) (by decide +kernel))).1 rfl
+example : mpInside ⟨3, 3⟩ (unaryUnion (Ec ⟨3, 3⟩ sqShape) ([sq, sqOverCw].map (fun m => [m]))) = false ∧
+    [sq, sqOverCw].any (polyInside ⟨3, 3⟩) = true :=
+  (unaryUnion_inconsistent_witness (Ec_spec ⟨3, 3⟩ sqShape (by decide +kernel) (by decide +kernel))).2 rfl
+
+example : mpInside ⟨1, 1⟩ (booleanOp E1 [sq, sqFar] [sqHole] .union) = true := by
+  rw [booleanOp_pointwise_multi_partial E1_spec [sq, sqFar] [sqHole] .union ⟨1, 1⟩ (by decide +kernel)
+    (by decide +kernel) (by decide +kernel) (by decide +kernel) (by decide +kernel) (by decide +kernel) rfl]
+  decide +kernel
+
+example : WindingValid [sqHole, sq] 1 ⟨1, 2⟩ :=
+  windingValid_of_valid [sqHole, sq] 1 ⟨1, 2⟩ (by simp) (by decide +kernel) consistentlyWound_ex
+    (by decide +kernel)
+
+example : ∀ r ∈ sqHoleRep.rings, ∃ k : Nat, r = coreRing r ++ List.replicate k (r.headD ⟨0, 0⟩) ∧
+    coreRing r = ringToShapePath r ++ [r.headD ⟨0, 0⟩] :=
+  glue_roundTrip_valid sqHoleRep (by decide +kernel)
+
+example : polyInside ⟨1, 1⟩ (polygonFromShape (sqHoleRep.rings.map ringToShapePath)) = true := by
+  rw [glue_roundTrip_region ⟨1, 1⟩ sqHoleRep (by decide +kernel)]
+  decide +kernel
+
+example : sampleMeasure [(⟨1, 1⟩, 3), (⟨3, 3⟩, 1 / 2)] (opRegion .xor (fun p => polyInside p sq) (fun p => polyInside p sqHole)) =
+    sampleMeasure [(⟨1, 1⟩, 3), (⟨3, 3⟩, 1 / 2)] (opRegion .union (fun p => polyInside p sq) (fun p => polyInside p sqHole)) -
+    sampleMeasure [(⟨1, 1⟩, 3), (⟨3, 3⟩, 1 / 2)] (opRegion .intersection (fun p => polyInside p sq) (fun p => polyInside p sqHole)) :=
+  (area_identities (sampleMeasure_additive (fun _ => True) _ (fun _ _ => trivial)) _ _).2.2
+
+example : evenOddRings ⟨3, 3⟩ (rings [sqHole, sqInHole]) = mpInside ⟨3, 3⟩ [sqHole, sqInHole] :=
+  evenOdd_eq_inside_multi [sqHole, sqInHole] ⟨3, 3⟩ (by decide +kernel) (by decide +kernel)
+example : mpInside ⟨3, 3⟩ [sqHole, sqInHole] = true ∧ mpInside ⟨9/4, 9/4⟩ [sqHole, sqInHole] = false := by
+  decide +kernel
+
+example : onLines ⟨1, 1⟩ (clip E1 [sq] [[⟨0, 1⟩, ⟨5, 1⟩]] false) = mpInside ⟨1, 1⟩ [sq] :=
+  (clip_partition_valid E1_spec [sq] [[⟨0, 1⟩, ⟨5, 1⟩]] ⟨1, 1⟩ (by decide +kernel) (by decide +kernel) rfl
+    (by decide +kernel)).1
+
+example :
+    sampleMeasure [(⟨1, 1⟩, 3)] (fun p => mpInside p (booleanOp E1 [sqHole, sqInHole] [sq] .difference)) =
+    sampleMeasure [(⟨1, 1⟩, 3)] (fun p => mpInside p [sqHole, sqInHole]) -
+    sampleMeasure [(⟨1, 1⟩, 3)] (fun p => mpInside p (booleanOp E1 [sqHole, sqInHole] [sq] .intersection)) :=
+  (booleanOp_area_identities_valid E1_spec [sqHole, sqInHole] [sq] (by decide +kernel) (by decide +kernel)
+    (by intro p hp; rw [show p = ⟨1, 1⟩ from hp]; decide +kernel) (sample_far1 _)).1.2.1
 
 end Geo.Proofs.C04
